@@ -302,7 +302,8 @@ def c12(ctx):
         "bad value re-signed / forged signer signature / other session / other message / index >= n, own partial before or after "
         "signing), every maximal behaviour for n=3, transition tour for n=4, random walks n=5..7, x keys from pedersen DKG, rabin DKG "
         "and a Shamir dealer; after EVERY step: result class, EnoughPartialSig, Signature ok/refused, bytes equal at all combiners "
-        "of the session, dss.Verify, eddsa.Verify, crypto/ed25519.Verify, rejection under another message; traces of a randomized "
+        "of the session, dss.Verify, eddsa.Verify, schnorr.Verify, crypto/ed25519.Verify, rejection under another message; final phase "
+        "(spec action VerifyAll): all n participants verify the combined signature concurrently, each must succeed; traces of a randomized "
         "driver and of the repo's own sign/dss tests (verif hooks) validated against DSSTrace; distinct = (key source, n, t, behaviour, step)",
         ["computational soundness of Schnorr / discrete log is not decided: forged and bad-value partials come from a finite menu of concretisations",
          "the DKGs are run honestly only (their fault behaviour is C11); rabin DKG refuses t = 1, covered by pedersen and the dealer",
